@@ -450,12 +450,24 @@ def judgeC14 (o : Obs) : Verdict :=
 
 /-! ### C15 - run() -/
 
-def judgeC15 (o : Obs) : Verdict :=
+def judgeC15 (o : Obs) (start : Rat) : Verdict :=
   -- the clock an activity sees after a nested run() is the one it saw before
   let nested := (labels o).flatMap (fun l =>
     (pairs ((ofLabel o l).filter (fun p => p.1.tag == "now" || p.1.tag == "log"))).flatMap (fun p =>
       fail (l < 10000 && p.1.1.time > p.2.1.time) s!"activity {l}: clock went from {p.1.1.time} to {p.2.1.time} (nested run disturbed the enclosing simulation)"))
-  nested
+  -- root activities (labels 0..) start at `start`, in argument order
+  let roots := (labels o).filter (fun l => l ≥ 0 && l < 1000)
+  let firsts := roots.filterMap (fun l => (ofLabel o l).head?.map (fun p => (l, p.1.time, p.2, p.1.tag)))
+  let startBad := firsts.filter (fun f => f.2.2.2 == "log" && f.2.1 != start)
+  let orderBad := (pairs (firsts.filter (fun f => f.2.2.2 == "log" && f.2.1 == start))).any (fun p => p.1.1 < p.2.1 && p.1.2.2.1 > p.2.2.2.1)
+  -- a root activity's return value must be reported (ActivityLeak)
+  let leaked := o.events.filter (fun e => e.tag == "ret" && (e.label < 1000 || e.label ≥ 10000))
+  nested ++
+  fail (!startBad.isEmpty) s!"root activities did not start at {start}: {startBad.map (fun f => (f.1, f.2.1))}" ++
+  fail orderBad "root activities did not start in argument order" ++
+  fail (o.crash == [] && !leaked.isEmpty) s!"a root activity returned {leaked.map (fun e => arg e 0)} but run() ended normally" ++
+  fail (o.crash.headD 0 == 99) s!"run() ended with an unexpected internal error {o.crash}" ++
+  fail o.visible "a simulation is still visible to the thread after run() returned"
 
 /-! ### C20 - every operation yields -/
 
